@@ -832,6 +832,14 @@ func (p *pp) printArg(arg interface{}, verb rune) {
 // printValue is similar to printArg but starts with a reflect value, not an interface{} value.
 // It does not handle 'p' and 'T' verbs because these should have been already handled by printArg.
 func (p *pp) printValue(value reflect.Value, verb rune, depth int) {
+	if depth == 0 {
+		// CUSTOM: an operand that gets here was not given to handleMethods
+		// (a byte slice, an invalid or inaccessible reflect.Value). For
+		// %w that is a misuse like any other, also when nothing of the
+		// operand is printed with the verb (no element, no field) and so
+		// no bad verb is reported.
+		p.ignoredVerb(verb)
+	}
 	// Handle values with special methods if not already handled by printArg (depth == 0).
 	if depth > 0 && value.IsValid() {
 		t := value.Type()
